@@ -10,8 +10,8 @@ import (
 
 // Flow wraps a go/cfg graph of one function body with node lookup and dominators.
 type Flow struct {
-	Info *types.Info
-	G    *cfg.CFG
+	Info    *types.Info
+	G       *cfg.CFG
 	idom    []int
 	domSets [][]bool
 	assume  []Assumption
